@@ -122,6 +122,8 @@ struct Mon {
     expect: HashMap<u128, (char, Vec<u8>)>,
     /// TOI reused for different content: (symbol length, OLD content); stale packets of the old content may still arrive
     reuse: HashMap<u128, (usize, Vec<u8>)>,
+    /// TOIs that must never be told `complete` in this case (truncated stream, partial delivery), with the class to report
+    never: HashMap<u128, String>,
 }
 
 type Shared = Rc<RefCell<Mon>>;
@@ -275,6 +277,9 @@ impl Mon {
                         format!("writer {}.{}: MD5 announced and checked, written bytes differ, still complete", toi, idx),
                     );
                 }
+            }
+            if let Some(class) = self.never.get(&toi).cloned() {
+                self.fail(&class, format!("writer {}.{}: complete ({} bytes) although the object cannot have been received entirely / its stream is truncated", toi, idx, written.len()));
             }
             if let Some((_, want)) = self.expect.get(&toi) {
                 let mixed = match self.reuse.get(&toi) {
@@ -550,6 +555,15 @@ impl Inner {
                 }
             }
             "ct" | "zmap" if t.len() == 4 => "ok".to_string(),
+            "zmap" if t.len() == 5 && t[4] == "bad" => "ok".to_string(),
+            "expect" if t.len() == 5 && t[3] == "n" => match t[2].parse::<u128>() {
+                // `expect <toi> n <class>`: this TOI must never be told `complete`
+                Ok(toi) if t[4].starts_with("C0") => {
+                    self.mon.borrow_mut().never.insert(toi, t[4].to_string());
+                    "ok".to_string()
+                }
+                _ => "bad-op".to_string(),
+            },
             "expect" if t.len() == 5 && t[3] == "r" => {
                 // `expect <toi> r <e>.<hex old content>`: the TOI was reused, stale packets of the OLD content follow; the expectation
                 // (new content) stays, a completed mixture of symbols of both contents is the narrow class C03:toi-reuse-mixed-complete
